@@ -67,6 +67,47 @@ func maximise(f func(float64) float64, n int) (float64, float64) {
 	return bt, bv
 }
 
+// wrapDestination on the implementation: the result is b moved by a whole number of wraps, at most half a
+// wrap from a (up to rounding of the final addition), and b itself when wrapping is off or not needed
+func searchWrap(c *vkit.Collector, rng *vkit.Rng, budget int) bool {
+	ok := true
+	for k := 0; k < 300*budget; k++ {
+		w := r2.Point{X: rng.Pick([]float64{0, 360, 2, 2 * math.Pi, math.Ldexp(1, 31), rng.Range(0.5, 1000)}), Y: rng.Pick([]float64{0, 0, 180, rng.Range(0.5, 100)})}
+		m := math.Max(w.X, 1)
+		a := r2.Point{X: rng.Range(-3, 3) * m, Y: rng.Range(-300, 300)}
+		b := r2.Point{X: rng.Range(-3, 3) * m, Y: rng.Range(-300, 300)}
+		if rng.Intn(4) == 0 {
+			b.X = a.X + rng.Pick([]float64{0.5, -0.5, 0.49999999, 0.50000001, 1, -1.5})*w.X
+		}
+		r := s2.VerifC20WrapDestination(a, b, w)
+		c.Eval(fmt.Sprintf("S.wrap:%x:%x:%x", math.Float64bits(w.X), math.Float64bits(a.X), math.Float64bits(b.X)), w.X > 0 && math.Abs(b.X-a.X) > 0.5*w.X)
+		rep := map[string]interface{}{"wrap": []float64{w.X, w.Y}, "a": []float64{a.X, a.Y}, "b": []float64{b.X, b.Y}, "result": []float64{r.X, r.Y}}
+		one := func(wd, av, bv, rv float64) string {
+			if !(wd > 0) || math.Abs(bv-av) <= 0.5*wd {
+				if rv != bv {
+					return "b modified although no wrapping is required"
+				}
+				return ""
+			}
+			eps := 4e-16 * (math.Abs(av) + math.Abs(bv) + wd)
+			if math.Abs(math.Remainder(rv-bv, wd)) > eps {
+				return "result is not b moved by a whole number of wraps"
+			}
+			if math.Abs(rv-av) > 0.5*wd+eps {
+				return "result is more than half a wrap from a"
+			}
+			return ""
+		}
+		for _, msg := range []string{one(w.X, a.X, b.X, r.X), one(w.Y, a.Y, b.Y, r.Y)} {
+			if msg != "" {
+				ok = false
+				c.Violate("wrapDestination", msg, rep)
+			}
+		}
+	}
+	return ok
+}
+
 func searchTessellation(c *vkit.Collector, rng *vkit.Rng, budget int, o *oracle) {
 	maxLen, maxRatio := 0, 0.0
 	for k := 0; k < 220*budget; k++ {
